@@ -184,6 +184,15 @@ impl Comp for AllocComp {
                     _ => panic!("hint unsupported"),
                 }
             }
+            "uacell" => {
+                // uacell <size> <align> <payload addr> : the two data cells of an UnrestrictedAtomic and the reserved size
+                use iceoryx2_bb_lock_free::spmc::unrestricted_atomic::UnrestrictedAtomicMgmt as M;
+                let (size, al, p) = (n(t[1]), n(t[2]), n(t[3]));
+                let c0 = unsafe { M::__internal_get_data_cell(size, al, p as *const u8, 0) };
+                let c1 = unsafe { M::__internal_get_data_cell(size, al, p as *const u8, 1) };
+                let c2 = unsafe { M::__internal_get_data_cell(size, al, p as *const u8, 7) };
+                format!("c0={c0} c1={c1} c7={c2}")
+            }
             "mk" => {
                 let o = PointerOffset::from_offset_and_segment_id(n(t[1]), SegmentId::new(n(t[2]) as u8));
                 format!("v={} off={} seg={}", o.as_value(), o.offset(), o.segment_id().value())
@@ -255,6 +264,11 @@ pub fn generate(a: &Args) -> Vec<Vec<String>> {
         }
         cases.push(lines);
         let mut lines = vec!["new bump 0 8".to_string()];
+        for _ in 0..4 {
+            let al = *rng.pick(&aligns[..9]);
+            let p = if rng.chance(70) { al * rng.range(1, 50) as usize } else { rng.range(1, 5000) as usize };
+            lines.push(format!("uacell {} {al} {p}", rng.range(1, 300)));
+        }
         for _ in 0..6 {
             let off = match rng.below(4) { 0 => rng.below(1 << 20), 1 => (1u64 << 56) - 1 - rng.below(5), 2 => rng.next() >> 8, _ => rng.below(300) };
             lines.push(format!("mk {off} {}", rng.below(256)));
